@@ -61,7 +61,7 @@ Proof.
         (split; [exact H1|congruence]). }
     destruct (xtag x) eqn:Et; try (split; [exact Hnote|discriminate]);
       (destruct (b_count (note_depth st depth) >? nl) eqn:En; [split; [exact Hnote|discriminate]|]);
-      try (exact (Hgen eq_refl _ (fun tg ks => SN (Z.to_nat (b_count (note_depth st depth))) tg (if ig then None else xname x) (xflag x) (xattrs x) ks)));
+      try (exact (Hgen eq_refl _ (fun tg ks => SN (b_next (note_depth st depth)) tg (if ig then None else xname x) (xflag x) (xattrs x) ks)));
       try (split; [exact (Hbump eq_refl)|discriminate]).
     (* use *)
     destruct (resolve_href doc x) as [link|]; [|split; [exact (Hbump eq_refl)|discriminate]].
@@ -80,12 +80,12 @@ Lemma build_inv doc :
 Proof.
   unfold build, build_with.
   pose proof (bnode_inv DEPTH_LIMIT NODES_LIMIT (NODES_LIMIT + 1) ltac:(lia) ltac:(unfold DEPTH_LIMIT; lia)
-                build_fuel doc doc None false 0 {| b_count := 1; b_maxdepth := 0 |}) as H.
+                build_fuel doc doc None false 0 bstate0) as H.
   destruct H as [[H1 H2] H3].
   - unfold build_fuel. rewrite Nat2Z.inj_add, Z2Nat.id by (unfold DEPTH_LIMIT; lia). lia.
   - unfold max_step, DEPTH_LIMIT, KID_DEPTH_STEP, USE_DEPTH_STEP. lia.
-  - split; cbn [b_maxdepth b_count]; unfold max_step, DEPTH_LIMIT, KID_DEPTH_STEP, USE_DEPTH_STEP, NODES_LIMIT; lia.
-  - destruct (bnode DEPTH_LIMIT NODES_LIMIT build_fuel doc doc None false 0 {| b_count := 1; b_maxdepth := 0 |})
+  - split; unfold bstate0; cbn [b_maxdepth b_count]; unfold max_step, DEPTH_LIMIT, KID_DEPTH_STEP, USE_DEPTH_STEP, NODES_LIMIT; lia.
+  - destruct (bnode DEPTH_LIMIT NODES_LIMIT build_fuel doc doc None false 0 bstate0)
       as [s [ks| |]]; cbn [fst snd] in *; repeat split; try assumption; congruence.
 Qed.
 
@@ -124,7 +124,7 @@ Proof.
     destruct Ht as [Ht|Ht]; rewrite Ht in H |- *;
       (destruct (G_NODES_BEFORE_APPEND && (b_count (note_depth st depth) >? nl)); [discriminate|]);
       (destruct (bkids _ (xkids x) (bump (note_depth st depth))) as [s2 [ks'| |]] eqn:Ek; try discriminate);
-      injection H as <- <-; exists f, (Z.to_nat (b_count (note_depth st depth))), (bump (note_depth st depth)), ks';
+      injection H as <- <-; exists f, (b_next (note_depth st depth)), (bump (note_depth st depth)), ks';
       repeat split; exact Ek.
 Qed.
 
@@ -189,7 +189,7 @@ Proof.
       [split; discriminate|exact Hb|exact Hb]. }
   destruct (xtag x) eqn:Et; try (split; discriminate);
     (destruct (G_NODES_BEFORE_APPEND && (b_count (note_depth st depth) >? nl)); [split; discriminate|]);
-    try (exact (Hkids _ Hu (fun tg ks => SN (Z.to_nat (b_count (note_depth st depth))) tg (if ig then None else xname x) (xflag x) (xattrs x) ks)));
+    try (exact (Hkids _ Hu (fun tg ks => SN (b_next (note_depth st depth)) tg (if ig then None else xname x) (xflag x) (xattrs x) ks)));
     try (split; discriminate).
   (* use *)
   destruct (resolve_href doc x) as [link|]; [|split; discriminate].
@@ -212,8 +212,8 @@ Lemma no_use_loop_finite doc nl : use_loop doc = false ->
 Proof.
   intros Hu F. unfold build_with.
   pose proof (uloop_false_finite (max_step * Z.of_nat F) nl doc F [] doc None Hu false 0
-                {| b_count := 1; b_maxdepth := 0 |}) as H.
-  destruct (bnode (max_step * Z.of_nat F) nl F doc doc None false 0 {| b_count := 1; b_maxdepth := 0 |})
+                bstate0) as H.
+  destruct (bnode (max_step * Z.of_nat F) nl F doc doc None false 0 bstate0)
     as [s [ks|e|]]; cbn [snd] in *; [exact I| |].
   - destruct H as [H _]; [unfold max_step, KID_DEPTH_STEP, USE_DEPTH_STEP; lia|]. destruct e; [congruence|exact I].
   - destruct H as [_ H]; [unfold max_step, KID_DEPTH_STEP, USE_DEPTH_STEP; lia|]. congruence.
